@@ -124,7 +124,7 @@ def lints_thin_arm_scenario(seed, i):
     q = [[1e4 * rng.randint(1, 5) for _ in range(d)] for _ in range(3)]
     ops = [{"op": "fit", "d": dec, "r": rew, "c": ctx}, {"op": "pexp", "c": q},
            {"op": "pfit", "d": [3, 1], "r": [1, 0], "c": [ctx[0], ctx[1]]}, {"op": "pexp", "c": q}, {"op": "pred", "c": q}]
-    return {"cfg": {"lp": {"k": "lints", "alpha": 1.0, "lam": rng.choice([1.0, 1e-8])}, "np": None, "arms": arms,
+    return {"cfg": {"lp": {"k": "lints", "alpha": 1.0, "lam": 1.0}, "np": None, "arms": arms,
                     "seed": rng.randint(0, 10 ** 6), "binz": None, "n_jobs": 1}, "ops": ops}
 
 
